@@ -343,6 +343,25 @@ def pool(contract, seed=0, limit=4000):
         groups = [[String(), Integer()], [Integer(), Number()], [Element(minimum=1), Element(maximum=3)], [String()], [Element(), Element()]]
         yield from cap((fn, (g, v, UNBOUND_PROPERTY, m)) for g in groups for v in vals[::2] for m in ("anyOf", "oneOf", "allOf"))
         return
+    if key.endswith(":_serialize_element"):
+        import statham.schema.elements as E_
+        from statham.schema.elements import Element, String, Integer, Array
+        from statham.schema.property import Property
+        K = getattr(E_, contract.inst) if contract.inst else Element
+        kw = {"Element": {}, "String": {"minLength": 1}, "Integer": {"minimum": 0}, "Array": {"items": String()}}.get(K.__name__, {})
+        def mk(**more):
+            try:
+                return K(**{**kw, **more})
+            except TypeError:
+                return K(**kw)
+        els = [mk(), mk(default=None), mk(description="d"),
+               Element(properties={"a": Property(String())}), Element(properties={"a": Property(String(), required=True)}),
+               Element(properties={"class_": Property(String(), source="class", required=True), "b": Property(Integer())}),
+               Element(properties={"x": Property(String(), source="$x"), "y": Property(String(), source="y y", required=True)}, required=["k"]),
+               Element(properties={"a": Property(String(), required=True)}, required=["a", "b"]), Element(required=["z"]), Element(required=[]),
+               Element(properties={"m": Property(Element(default=1), source="M", required=True), "n": Property(String(), required=True)}, default={"M": 1})]
+        yield from cap((fn, (e,)) for e in els if type(e) is K)
+        return
     if key.endswith(":_compose_elements"):
         import statham.schema.elements as E_
         from statham.schema.elements import Element, Integer, String, Nothing
